@@ -1,8 +1,8 @@
 CONSTANTS
   Labels <- LabelsACStar
-  Pool <- Pool2
-  MaxR = 2
-  MaxC = 2
+  Pool <- Pool1
+  MaxR = 3
+  MaxC = 3
   Perms = "all"
 INIT Init
 NEXT Next
